@@ -9,6 +9,8 @@
 //               hundreds to thousands (rarely > 65535) of fields / parts / occurrences, long separators / needles /
 //               drop sets, large limits / widths / line breaks — see "scale classes" in C19_common.hpp
 //   all         first byte selects one of the eight (used by the libFuzzer step)
+//   icase, icase_long, helpers_alias, codec_extra, byte_sweep (enumerate): registered in C19_icase.cpp (round 4: equal_icase /
+//               less_icase, aliasing and re-use, hexdump_type / _sourcecode, default arguments, exhaustive 256 x 256 byte sweep)
 #include "C19_common.hpp"
 
 PBT_PROPERTY(codec) { c19::long_mode() = false, c19_codec(src); }
